@@ -43,25 +43,47 @@ func dropPages() {
 	droppedUpTo = len(leaked)
 }
 
-// vAlloc is a conforming experimental.MemoryAllocator that is as hostile as the contract allows:
-// small memories MOVE on every Reallocate and the abandoned buffer is poisoned, so an engine that
-// keeps a stale base pointer or length reads garbage; multi-GiB memories are reserved once with the
-// maximum as capacity (virtual) and re-sliced afterwards. Contents are preserved and new bytes are zero,
-// as the contract of the allocator demands.
+// vAlloc is a family of conforming experimental.MemoryAllocator behaviours, each as hostile as the contract
+// allows. In all of them it is Reallocate that makes new bytes valid and zero; contents are preserved.
+//
+//	exact     cap == len; small memories MOVE on every Reallocate and the abandoned buffer is poisoned, so an
+//	          engine that keeps a stale base pointer or length reads garbage; multi-GiB memories are mapped once
+//	          with the maximum as capacity and re-sliced afterwards.
+//	reserve   the maximum is reserved up front (never moves, cap == max); the spare region is filled with a
+//	          poison byte and only the part handed out by Reallocate is cleared.
+//	recycled  slabs (requested size + 2 pages; multi-GiB: the maximum) come from a free list of dirty slabs used
+//	          and Free()d by closed instances of the same exploration (first use: poison-filled); growing
+//	          beyond the slab moves to another slab and returns the old one dirty.
+//	refusing  like reserve, but Reallocate returns nil beyond min+1 pages: the grow must fail and change nothing.
+//
+// Multi-GiB backings are anonymous mappings poisoned only at the offsets the check looks at (see
+// poisonOffsets); "clearing" them clears exactly those offsets.
 type vAlloc struct {
-	maps      [][]byte // mmap'ed multi-GiB regions, unmapped by release()
-	mems      []*vMem
-	contract  []string // contract violations by wazero (requests beyond max, misaligned sizes, use after Free)
-	allocArgs [][2]uint64
+	kind        string
+	pool        *slabPool // recycled
+	refuseAbove uint64    // refusing: bytes; 0 = never refuses
+	maps        [][]byte  // mmap'ed regions owned by this instance, unmapped by release()
+	mems        []*vMem
+	contract    []string // contract violations by wazero (requests beyond max, misaligned sizes, use after Free)
+	allocArgs   [][2]uint64
+}
+
+type reCall struct {
+	Size    uint64
+	Refused bool
 }
 
 type vMem struct {
 	a        *vAlloc
-	buf      []byte
+	buf      []byte // what wazero holds
+	back     []byte // reserve/recycled/refusing: the whole backing (len == capacity)
+	sparse   bool   // back is a multi-GiB mapping poisoned at poisonOffsets only
 	cap, max uint64
-	freed    bool
-	reallocs []uint64
+	freed    int
+	calls    []reCall
 }
+
+const poisonByte = 0xA5
 
 func (a *vAlloc) Allocate(cap, max uint64) experimental.LinearMemory {
 	m := &vMem{a: a, cap: cap, max: max}
@@ -73,13 +95,18 @@ func (a *vAlloc) Allocate(cap, max uint64) experimental.LinearMemory {
 	return m
 }
 
+// recorded is the allocator's own idea of the current size.
+func (m *vMem) recorded() uint64 { return uint64(len(m.buf)) }
+
 func (m *vMem) Reallocate(size uint64) []byte {
-	m.reallocs = append(m.reallocs, size)
-	if m.freed {
+	call := reCall{Size: size}
+	defer func() { m.calls = append(m.calls, call) }()
+	if m.freed > 0 {
 		m.a.contract = append(m.a.contract, fmt.Sprintf("Reallocate(%d) after Free", size))
 	}
 	if size > m.max {
 		m.a.contract = append(m.a.contract, fmt.Sprintf("Reallocate(%d) beyond max %d", size, m.max))
+		call.Refused = true
 		return nil
 	}
 	if size%pageSize != 0 {
@@ -88,33 +115,73 @@ func (m *vMem) Reallocate(size uint64) []byte {
 	if size < uint64(len(m.buf)) {
 		m.a.contract = append(m.a.contract, fmt.Sprintf("Reallocate(%d) shrinks from %d", size, len(m.buf)))
 	}
+	if m.a.refuseAbove != 0 && size > m.a.refuseAbove {
+		call.Refused = true
+		return nil
+	}
 	huge := uint64(hugePages) * pageSize
-	switch {
-	case size >= huge && uint64(cap(m.buf)) >= size:
-		m.buf = m.buf[:size] // reserved earlier; bytes beyond the old length were never exposed and are zero
-	case size >= huge:
-		c := m.max
-		if c < size {
-			c = size
+	old := uint64(len(m.buf))
+	switch m.a.kind {
+	case "reserve", "refusing":
+		if m.back == nil {
+			m.back, m.sparse = newBacking(m.max)
+			if m.sparse {
+				m.a.maps = append(m.a.maps, m.back)
+			}
 		}
-		region := mmapAnon(c, true) // fresh mapping: virtual and zero
-		m.a.maps = append(m.a.maps, region)
-		nb := region[:size]
-		copy(nb, m.buf) // the old buffer is small here (the alphabet has no intermediate sizes)
-		poison(m.buf)
-		m.buf = nb
-	default:
-		nb := make([]byte, size)
-		copy(nb, m.buf)
-		poison(m.buf)
-		m.buf = nb
+		clearBacking(m.back, m.sparse, old, size)
+		m.buf = m.back[:size]
+	case "recycled":
+		if m.back == nil || size > uint64(len(m.back)) {
+			need := size + 2*pageSize
+			if size >= huge {
+				need = size
+				if m.max > need {
+					need = m.max
+				}
+			}
+			nb, sp := m.a.pool.take(need)
+			copy(nb, m.buf) // the old slab is small here (the alphabet has no intermediate sizes)
+			if m.back != nil {
+				m.a.pool.put(m.back, m.sparse) // dirty, as it is
+			}
+			m.back, m.sparse = nb, sp
+		}
+		clearBacking(m.back, m.sparse, old, size)
+		m.buf = m.back[:size]
+	default: // exact
+		switch {
+		case size >= huge && uint64(cap(m.buf)) >= size:
+			m.buf = m.buf[:size] // mapped earlier; bytes beyond the old length were never exposed and are zero
+		case size >= huge:
+			c := m.max
+			if c < size {
+				c = size
+			}
+			region := mmapAnon(c, true) // fresh mapping: virtual and zero
+			m.a.maps = append(m.a.maps, region)
+			nb := region[:size]
+			copy(nb, m.buf) // the old buffer is small here
+			poison(m.buf)
+			m.buf = nb
+		default:
+			nb := make([]byte, size)
+			copy(nb, m.buf)
+			poison(m.buf)
+			m.buf = nb
+		}
 	}
 	return m.buf
 }
 
-func (m *vMem) Free() { m.freed = true }
+func (m *vMem) Free() {
+	m.freed++
+	if m.a.kind == "recycled" && m.back != nil && m.freed == 1 {
+		m.a.pool.put(m.back, m.sparse)
+	}
+}
 
-// release unmaps the multi-GiB regions once the instance is closed.
+// release unmaps the regions owned by the instance once it is closed.
 func (a *vAlloc) release() {
 	for _, r := range a.maps {
 		_ = syscall.Munmap(r)
@@ -122,11 +189,119 @@ func (a *vAlloc) release() {
 	a.maps = nil
 }
 
+// newBacking returns n bytes of "dirty" capacity: completely poison-filled when small, an anonymous mapping
+// poisoned at poisonOffsets when multi-GiB.
+func newBacking(n uint64) (b []byte, sparse bool) {
+	if n >= uint64(hugePages)*pageSize {
+		b = mmapAnon(n, true)
+		for _, o := range poisonOffsets(n) {
+			b[o] = poisonByte
+		}
+		return b, true
+	}
+	b = make([]byte, n)
+	for i := range b {
+		b[i] = poisonByte
+	}
+	return b, false
+}
+
+// clearBacking is what the allocator does to hand out [from,to): it makes those bytes zero.
+func clearBacking(b []byte, sparse bool, from, to uint64) {
+	if to <= from {
+		return
+	}
+	if !sparse {
+		clear(b[from:to])
+		return
+	}
+	for _, o := range poisonOffsets(uint64(len(b))) {
+		if o >= from && o < to {
+			b[o] = 0
+		}
+	}
+}
+
+var poisonCache = map[uint64][]uint64{}
+
+// poisonOffsets: the offsets < n that the content comparison of a multi-GiB memory can look at without having
+// written them: -16..+1 around the boundaries of the pages boundaryPages may select.
+func poisonOffsets(n uint64) []uint64 {
+	if p, ok := poisonCache[n]; ok {
+		return p
+	}
+	set := map[uint64]bool{}
+	for _, k := range []uint64{0, 1, 2, 3, 4, 5, 6, 7, 32767, 32768, 32769, 65534, 65535, 65536} {
+		for d := int64(-16); d <= 1; d++ {
+			if o := int64(k*pageSize) + d; o >= 0 && uint64(o) < n {
+				set[uint64(o)] = true
+			}
+		}
+	}
+	p := sortedU64(set)
+	poisonCache[n] = p
+	return p
+}
+
+// slabPool is the free list of the recycled allocator; it lives as long as one exploration (one engine of one
+// configuration), i.e. across all its instances.
+type slabPool struct {
+	free     map[uint64][]pooled
+	regions  [][]byte
+	Recycled int64 // slabs handed out that had been used by an earlier instance
+}
+
+type pooled struct {
+	b      []byte
+	sparse bool
+}
+
+func newSlabPool() *slabPool { return &slabPool{free: map[uint64][]pooled{}} }
+
+func (p *slabPool) take(n uint64) ([]byte, bool) {
+	if l := p.free[n]; len(l) > 0 {
+		s := l[len(l)-1]
+		p.free[n] = l[:len(l)-1]
+		p.Recycled++
+		return s.b, s.sparse
+	}
+	b, sparse := newBacking(n)
+	if sparse {
+		p.regions = append(p.regions, b)
+	}
+	return b, sparse
+}
+
+// put returns a slab dirty. A multi-GiB slab cannot be cleared densely later, so its pages are dropped and the
+// known offsets are poisoned again.
+func (p *slabPool) put(b []byte, sparse bool) {
+	if sparse {
+		_ = syscall.Madvise(b, syscall.MADV_DONTNEED)
+		for _, o := range poisonOffsets(uint64(len(b))) {
+			b[o] = poisonByte
+		}
+	} else if len(b) > 0 {
+		b[len(b)-1] = poisonByte // whatever the instance left, plus a mark in the never handed-out tail
+	}
+	p.free[uint64(len(b))] = append(p.free[uint64(len(b))], pooled{b, sparse})
+}
+
+func (p *slabPool) release() {
+	for _, r := range p.regions {
+		_ = syscall.Munmap(r)
+	}
+	p.regions = nil
+	p.free = map[uint64][]pooled{}
+}
+
 // mmapAnon returns n bytes of anonymous private memory straight from the kernel (never touched => never resident).
 func mmapAnon(n uint64, writable bool) []byte {
 	prot := syscall.PROT_READ
 	if writable {
 		prot |= syscall.PROT_WRITE
+	}
+	if n == 0 {
+		return []byte{}
 	}
 	b, err := syscall.Mmap(-1, 0, int(n), prot, syscall.MAP_ANON|syscall.MAP_PRIVATE|syscall.MAP_NORESERVE)
 	if err != nil {
